@@ -4803,6 +4803,13 @@ class Interp:
             src_iter = None
             if isinstance(seq, Sym) and self.heap and type(self.h).take is not Hooks.take:
                 seq = ScriptedIter(seq)          # a stream that the scenario scripts
+            if kind in ('map', 'filter', 'filterfalse') and self.heap and self.precise_exc and not isinstance(seq, Iter) \
+               and (isinstance(args[0], (Sym, Partial, OpCall, M.FunctionInfo)) or (isinstance(args[0], tuple) and len(args[0]) == 3 and args[0][0] == 'boundmethod'
+                                                                                    and not _plain(args[0][1]))):
+                # the function is one of the analysed code or of the scenario: it runs when the items are asked for, not now
+                src_ = self._as_iterator(seq, s)
+                if src_ is not None:
+                    return LazyGen(n, src_, {}, self.scope, kind, args[0])
             if isinstance(seq, (LazyGen, GenObj, ScriptedIter)) or (isinstance(seq, CountIter) and kind != 'takewhile'):
                 return LazyGen(n, seq, {}, self.scope, kind, args[0])
             if isinstance(seq, CountIter) and kind == 'takewhile':
